@@ -11,7 +11,8 @@ ID = "C14"
 MODULE = "PotasscoVerif.Props.C14"
 THEOREMS = ["PotasscoVerif.C14.C14_prefix_range", "PotasscoVerif.C14.C14_find_exact", "PotasscoVerif.C14.C14_find_prefix",
             "PotasscoVerif.C14.C14_find_unknown", "PotasscoVerif.C14.C14_duplicate", "PotasscoVerif.C14.insert_spec",
-            "PotasscoVerif.C14.C14_refused_short_unchanged", "PotasscoVerif.C14.C14_refused_noalias_unchanged"]
+            "PotasscoVerif.C14.C14_refused_short_unchanged", "PotasscoVerif.C14.C14_refused_noalias_unchanged",
+            "PotasscoVerif.C14.C14_merge_step", "PotasscoVerif.C14.C14_merge_refused"]
 PARTIAL = {}
 BSIZES = (4096,)
 RULE = ("contexts of 1..12 options over an alphabet that forces heavy prefix sharing (names that are prefixes of other names, bytes 0x7e/0x7f/0x80/0xc3/0xff after a shared prefix, "
@@ -26,7 +27,7 @@ LEVEL_TEXT = ("For EVERY sorted index (insert_spec: every index that can be buil
               "candidates for several, and tryFind succeeds in precisely the unique case (C14_find_prefix + definition of find/tryFind), non-prefix lookups of a missing name are "
               "'unknown' (C14_find_unknown). A refused add whose short name is the taken one, or that has no short name, leaves the context exactly as it was "
               "(C14_refused_short_unchanged, C14_refused_noalias_unchanged): histories go on after a refusal and every later lookup is checked against the oracle; when only the long name is taken the code has "
-              "already entered the new short name (modelled: Ctx.afterRefused) — that context is not a successfully built one, later lookups on it are compared with the model only. Tied to the code by running generated contexts/queries through the real OptionContext and by a brute-force oracle.")
+              "already entered the new short name (modelled: Ctx.afterRefused) — that context is not a successfully built one, later lookups on it are compared with the model only. Adding a whole context (OptionContext::add(const OptionContext&)) is modelled as adding its options group by group (Ctx.addCtx: mergeOrder, addAll; C14_merge_step / C14_merge_refused: each accepted option is a single add, the first refusal ends the merge with what was inserted so far); the other context's extra alias names are not taken over. Tied to the code by running generated contexts/queries through the real OptionContext and by a brute-force oracle.")
 LEVEL_NOTE = ("Proved about Model/OptIndex.lean (std::map modelled as a strictly sorted list under unsigned lexicographic order); model==code on ~5k (quick) / 120k (thorough) contexts "
               "with heavy prefix sharing and high bytes. Trusted: Lean kernel+axioms, harness, generator, reference() in props/c14.py.")
 
@@ -64,6 +65,19 @@ def gen(rng):
         if names and rng.random() < 0.35 and an in names: tgt = names.index(an)          # the name's own option
         given.append(an)
         ops.append("a:%s:%d" % (hexs(an), tgt))
+    if rng.random() < 0.25:
+        # a second context whose groups are added to the first (OptionContext::add(const OptionContext&)): its options arrive group by group; its own
+        # extra alias names are not taken over; names may clash with the first context (the merge is then refused half way)
+        m = rng.randint(1, 5); onames = []
+        for i in range(m):
+            nm = name(rng) + (b"%d" % i if rng.random() < 0.8 else b"")
+            al = rng.choice(b"klmnpqrs") if rng.random() < 0.4 else 0
+            if rng.random() < 0.1 and names: nm = rng.choice(names)
+            if rng.random() < 0.1: al = rng.choice(b"abcfhvx")
+            onames.append(nm); ops.append("O:%s:%d" % (hexs(nm), al))
+        for _ in range(rng.choice([0, 1, 2])): ops.append("A:%s:%d" % (hexs(name(rng) + b"?"), rng.randint(0, m)))
+        ops.append("m:-:0")
+        names = names + onames
     for _ in range(rng.randint(3, 12)):
         k = rng.random()
         base = rng.choice(names) if names else b"f"
@@ -89,10 +103,39 @@ def generate(ctx):
 def reference(ops):
     """brute force by the property text."""
     index, nopt, out = {}, 0, []
+    oindex, oopts = {}, []          # the second context: its own names (refusals inside it), its options (name, alias, group) in order of addition
     for o in ops:
         f = o.split(":")
         unh = lambda h: b"" if h == "-" else bytes.fromhex(h)
-        if f[0] == "o":
+        if f[0] == "O":
+            nm, al = unh(f[1]), int(f[2])
+            if al and (b"-" + bytes([al])) in oindex: out.append("DUP"); continue
+            if nm and (nm in oindex or (al and nm == b"-" + bytes([al]))):
+                out.append("DUP")
+                if al: oindex[b"-" + bytes([al])] = len(oopts)      # what the refused insert leaves in the OTHER context does not reach the first one
+                continue
+            if al: oindex[b"-" + bytes([al])] = len(oopts)
+            if nm: oindex[nm] = len(oopts)
+            oopts.append((nm, al, len(oopts) % 2)); out.append("ok")
+        elif f[0] == "A":
+            nm, o_ = unh(f[1]), int(f[2])
+            if o_ < len(oopts) and nm:
+                if nm in oindex: out.append("DUP"); continue
+                oindex[nm] = o_
+            out.append("ok")
+        elif f[0] == "m":
+            # the groups of the other context one after the other (order of creation), each with its options in order; alias names are not taken over
+            order = []
+            for g in dict.fromkeys(x[2] for x in oopts): order += [x for x in oopts if x[2] == g]
+            clash = False
+            for nm, al, _ in order:
+                if (al and (b"-" + bytes([al])) in index) or (nm and (nm in index or (al and nm == b"-" + bytes([al])))): clash = True; break
+                if al: index[b"-" + bytes([al])] = nopt
+                if nm: index[nm] = nopt
+                nopt += 1
+            out.append("DUP" if clash else "ok")
+            if clash: break          # refused half way: what the context answers from here on is compared with the model only
+        elif f[0] == "o":
             nm, al = unh(f[1]), int(f[2])
             # a refused add leaves a successfully built context as it was: lookups go on as before
             if al and (b"-" + bytes([al])) in index: out.append("DUP"); continue
